@@ -81,10 +81,17 @@ def build(nodes_cfg, services, node_order, svc_order, facility):
             t.add_network_service(name=name, nstype=ServiceType.FABNetv6Ext, interfaces=[port])
         elif kind == 'pm_in':
             b = [jj for jj, (kd, _) in enumerate(services) if kd == 'bridge'][0]
-            t.add_port_mirror_service(name=name, from_interface_name=f'HGE-{b}', to_interface=port)
+            t.add_port_mirror_service(name=name, from_interface_name=f'HGE-{b}', to_interface=port, capacities=Capacities(bw=20 + j))
         elif kind == 'pm_out':
-            t.add_port_mirror_service(name=name, from_interface_name=f'OUTSIDE-{j}', to_interface=port)
+            t.add_port_mirror_service(name=name, from_interface_name=f'OUTSIDE-{j}', to_interface=port, capacities=Capacities(bw=20 + j))
     return t
+
+
+def requested_bw(services):
+    """the bandwidths the DESCRIPTION asks for (the tally below reads the model that was built from it: what a convenience
+    call silently drops on the way into the model is missing from both the model and the attributes)"""
+    return sorted([10 + j for j, (kind, _) in enumerate(services) if kind == 'bridge'] +
+                  [20 + j for j, (kind, _) in enumerate(services) if kind in ('pm_in', 'pm_out')])
 
 
 def tally(t):
@@ -191,6 +198,9 @@ def eval_slice(case):
                 v.append((f'raises/{type(e).__name__}', f'{type(e).__name__}: {e} order nodes={no} services={so} {ctx} {traceback.format_exc(limit=2)}'))
                 continue
             o = f'order nodes={no} services={so}'
+            if sorted(b for b in tl['bw'] if b) != requested_bw(services):
+                v.append(('built-model/bw-differs-from-request', f'the model holds service bandwidths {sorted(b for b in tl["bw"] if b)}, '
+                          f'requested {requested_bw(services)} {o} {ctx}'))
 
             def cmp_multi(attr, want, what):
                 got = sorted(raw_attrs.get(attr, []))
